@@ -497,6 +497,21 @@ def getitem(it, base, idx):
 
 
 def setitem(it, base, idx, val):
+    if isinstance(base, ListObj) and isinstance(idx, SliceVal) and idx.lo is None and idx.hi is None and idx.step is None:
+        # xs[:] = ys  (replace the contents in place)
+        if it.list_hook is not None:
+            it.list_hook(it, base, "clear", [])
+        if isinstance(val, ListObj) and val.symbolic:
+            base.items, base.term, base.elem = None, val.term, val.elem
+        else:
+            items = it.iterate(val)
+            if base.symbolic and not items:
+                base.term = z3.Empty(base.term.sort())
+            elif base.symbolic:
+                base.term = it.seq_term(ListObj(items))
+            else:
+                base.items[:] = items
+        return
     if isinstance(base, ListObj):
         if not base.symbolic and isinstance(idx, int):
             n = len(base.items)
@@ -1097,6 +1112,10 @@ def install(it):
     E["threading.get_ident"] = Native("get_ident", lambda it_, a, k: it_.world.current_thread(it_))
     E["threading.local"] = NativeClass("local", [obj], lambda it_, c, a, k: Obj(c))
     E["threading.Thread"] = NativeClass("Thread", [obj], None)
+    # futures: only values the world marks as futures are futures
+    E["asyncio.isfuture"] = Native("isfuture", lambda it_, a, k: isinstance(a[0], Opaque) and a[0].kind == "future")
+    E["asyncio.Future"] = NativeClass("Future", [obj], None)
+    E["concurrent.futures.Future"] = NativeClass("ConcurrentFuture", [obj], None)
     # logging
     E["logging.getLogger"] = Native("getLogger", lambda it_, a, k: Opaque("logger", "log"))
     # collections
